@@ -46,6 +46,7 @@ func c14(c *core.Check) {
 	c14FiniteAttributes(c)
 	c14MarkerScale(c)
 	c14GradientBoxDivisors(c)
+	c14CriticalPointsFiltered(c)
 	r6 := c.Rule("R6", "no call passes two same-typed arguments under each other's parameter names (swapped arguments): every pair of arguments named after the callee's parameters is aligned with them", 86)
 	argNameRule(c, r6, "html/document", map[string]bool{"document.go": true, "draw.go": true}, 45)
 	argNameRule(c, r6, "images", nil, 20)
